@@ -47,7 +47,11 @@ class C02(Prop):
     title = 'Identifiers: txid ignores witness, wtxid covers it, block hash = header hash'
     lean_targets = ['BtcVerif.Props.C02']
     table_groups = []
-    theorems = []
+    theorems = ['BtcVerif.C02.' + t for t in (
+        'txid_eq_spec', 'txid_witness_indep', 'wtxid_eq_spec', 'full_eq_stripped_iff',
+        'wtxid_eq_txid_of_no_witness', 'preimages_differ', 'wtxid_ne_txid_of_injOn', 'wtxid_ne_txid_iff',
+        'blockhash_eq_spec', 'blockhash_indep_vtx', 'blockhash_eq_headerhash', 'headerhash_eq_spec',
+        'eq_iff_ser_eq', 'eq_iff_fields_eq', 'hash_eq_of_ser_eq', 'ids_of_equal_fields')]
     anchors = [('bitcoin/core/__init__.py', 'CTransaction.GetTxid'),
                ('bitcoin/core/__init__.py', 'CTransaction.has_witness'),
                ('bitcoin/core/__init__.py', 'CTxWitness.is_null'),
